@@ -63,6 +63,23 @@ def job(j):
             p["hh_id"] = 0
             for c in ("bruttokaltmiete_m_hh", "heizkosten_m_hh", "wohnfläche_hh", "bewohnt_eigentum_hh", "immobilie_baujahr_hh", "mietstufe", "wohnort_ost"):
                 p[c] = hh0[c]
+    if tid % 2 == 1:
+        # survey-style household labels and interleaved rows: the members of a unit are not adjacent and the labels are far
+        # larger than the number of rows
+        relabel = {}
+        for p in P:
+            relabel.setdefault(p["hh_id"], 1001 + 37 * len(relabel))
+        for p in P:
+            p["hh_id"] = relabel[p["hh_id"]]
+        byhh = {}
+        for p in P:
+            byhh.setdefault(p["hh_id"], []).append(p)
+        rows = []
+        while any(byhh.values()):
+            for h in list(byhh):
+                if byhh[h]:
+                    rows.append(byhh[h].pop(0))
+        P = rows
     df = gs.build_population(P, date)
     info = {"tid": tid, "date": date, "persons": P, "n": len(df)}
     data_cols = list(df)
